@@ -293,7 +293,7 @@ GROUPS += [
         "bounds": "arbitrary 4-byte member; arbitrary 8-byte object with length 4..=8",
     },
     {
-        "id": "T.c14.try_from", "property": "C14", "crate": "core", "tier": "thorough",
+        "id": "T.c14.try_from", "property": "C14", "crate": "core", "tier": "thorough", "best_effort": True,
         "harnesses": ["c14_core_extensions_try_from_wellformed"], "jobs": 1, "timeout_s": 1500, "mem_gb": 16,
         "functions": ["Extensions::try_from(&[u8])", "Extensions::try_from(ExtensionsPacket)", "MplsLabelStack::from"],
         "bounds": "fixed shape (version-2 header, one MPLS object with two members, one opaque object with two bytes), all "
@@ -326,7 +326,7 @@ GROUPS += [
     },
     # ------------------------------------------------------------------ thorough-only groups
     {
-        "id": "T.base_case", "property": "C07", "crate": "core", "tier": "thorough", "stubbing": True,
+        "id": "T.base_case", "property": "C07", "crate": "core", "tier": "thorough", "stubbing": True, "best_effort": True,
         "harnesses": ["c07_base_case_new_satisfies_inv"], "jobs": 1, "timeout_s": 3000, "mem_gb": 24,
         "functions": ["TracerState::new"], "stubs": [CLOCK_STUB],
         "bounds": "the real constructor (512-iteration from_fn) for every accepted configuration: base case of the induction",
@@ -337,7 +337,7 @@ GROUPS += [
         "bounds": "additional window positions (1,254) (255,255) (256,256) (63999,510) (65021,2) / reissue (1,2) (64511,255) (65022,256)",
     },
     {
-        "id": "T.reissue_sym", "property": "C07", "crate": "core", "tier": "thorough",
+        "id": "T.reissue_sym", "property": "C07", "crate": "core", "tier": "thorough", "best_effort": True,
         "harnesses": ["t07_reissue_probe_sym"], "jobs": 1, "timeout_s": 1200, "mem_gb": 27, "functions": STATE_FNS,
         "bounds": "reissue_probe with every scalar symbolic (all window positions), scalar post-conditions; may end "
                   "inconclusive (memory) - then the claim rests on the representative positions of C07.slot",
